@@ -47,7 +47,8 @@ class Cache:
         for arg in args:
             self._update_hash(arg)
 
-        # hash keyword arguments
+        # hash keyword arguments (separated from the positional arguments)
+        self.ahash.update(b"<kwargs>")
         kwds = list(kwargs.keys())
         kwds.sort()
         for k in kwds:
@@ -55,6 +56,7 @@ class Cache:
             self._update_hash(kwargs[k])
 
         # make sure we are caching for the correct method
+        self.ahash.update(b"<func>")
         self._update_hash(self.func.__name__)
         self._update_hash(self.func.__doc__)
         self._update_hash(self.func.__code__.co_filename)
@@ -76,13 +78,26 @@ class Cache:
         """Takes an argument and updates the hash.
         The argument can be an np.array, string, or list
         of things that are convertable to strings.
+
+        Every argument is preceded by a tag that states its type and
+        extent (data type and shape for arrays, number of items for
+        lists and tuples, length of the string representation for
+        everything else), such that different arguments never result
+        in the same sequence of bytes.
         """
         if isinstance(arg, np.ndarray):
+            tag = f"<ndarray:{arg.dtype.str}:{arg.shape}>"
+            self.ahash.update(tag.encode("utf-8"))
             self.ahash.update(arg.view(np.uint8))
-        elif isinstance(arg, list):
+        elif isinstance(arg, (list, tuple)):
+            tag = f"<{type(arg).__name__}:{len(arg)}>"
+            self.ahash.update(tag.encode("utf-8"))
             [self._update_hash(a) for a in arg]
         else:
-            self.ahash.update(str(arg).encode('utf-8'))
+            data = str(arg).encode('utf-8')
+            tag = f"<{type(arg).__name__}:{len(data)}>"
+            self.ahash.update(tag.encode("utf-8"))
+            self.ahash.update(data)
 
     @staticmethod
     def clear_cache():
